@@ -139,6 +139,11 @@ Fixpoint depends_on (fuel : nat) (p : mpipe) (qs : list str) (o : str) : bool :=
       end
   end.
 
+(* add_mapspec_axis with an axis name that some MapSpec entry of one of the parameters already carries (zipping) *)
+Definition is_zip (p : mpipe) (qs : list str) (axis : str) : bool :=
+  existsb (fun a => mem_str (aname a) qs && has_axis axis a)
+          (flat_map (fun f => match fspec f with Some m => ins m | None => [] end) p).
+
 Definition spec_map (c : mcase) (obs : sx) : bool :=
   let p := m_funcs c in
   match obs with
@@ -146,6 +151,29 @@ Definition spec_map (c : mcase) (obs : sx) : bool :=
       match m_op c with
       | MSimplify _ => sx_is_err status                      (* documented refusal *)
       | MAddAxis qs axis =>
+          if is_zip p qs axis then
+            (* zipping onto an axis that a MapSpec of the parameter already has: no dimension is added.  The request
+               (generated only where every MapSpec entry of the parameter ends with that axis) is accepted, the
+               rewritten pipeline maps the SAME inputs, every output it had keeps being produced, and the outputs
+               that do not depend on the parameter keep their values *)
+            match origs with
+            | [o1] =>
+                match un_results o1 with
+                | None => true
+                | Some o0 =>
+                    match un_results rew with
+                    | Some rw =>
+                        forallb (fun o => match lookup rw o with
+                                          | None => false
+                                          | Some rv => if depends_on (S (length p)) p qs o then true
+                                                       else match lookup o0 o with Some want => sx_eqb rv want | None => false end
+                                          end) (produced p)
+                    | None => false
+                    end
+                end
+            | _ => false
+            end
+          else
           match optM un_results origs with
           | None => true                                     (* the original gives no values *)
           | Some os =>
